@@ -41,6 +41,9 @@ impl Cell_iter {
     /// `Iterator::next` on the user's iterator
     #[verifier::external_body]
     pub fn next<T>(&self, h: &mut Heap<T>, g: &mut Ghost<G<T>>, c: &Cap) -> (r: Option<T>)
+        requires
+            old(g)@.dn.phase == Dn::Live, /* @C15 the iterator is never advanced once the sink has disposed */
+            old(g)@.next_calls < old(g)@.dn.pulls, /* @C15 the iterator is advanced only on demand: at most once per Pull */
         ensures r == items::<T>(old(g)@.next_calls), *final(h) == *old(h), final(g)@ == (G { next_calls: old(g)@.next_calls + 1, ..old(g)@ }),
     { unimplemented!() }
 }
@@ -71,6 +74,7 @@ pub open spec fn inv_order<T>(h: Heap<T>, g: G<T>, c: Cap) -> bool {
     &&& g.next_calls == g.dn.data.len() + (if h.res_done { 1nat } else { 0nat })
     &&& (forall|k: int| 0 <= k < g.dn.data.len() ==> items::<T>(k as nat) == Some(#[trigger] g.dn.data[k]))
     &&& (h.res_done ==> items::<T>(g.dn.data.len()) is None)
+    &&& g.next_calls + (if h.got_pull && g.dn.phase == Dn::Live && !h.res_done { 1nat } else { 0nat }) <= g.dn.pulls
 }
 pub open spec fn inv_reent<T>(h: Heap<T>, g: G<T>, c: Cap) -> bool {
     &&& h.in_loop == g.loop_active
